@@ -163,7 +163,7 @@ Proof.
   apply Forall_app. split; [exact Hw|].
   apply Forall_app. split.
   { destruct (no_at_string [e_node ref]); repeat constructor. }
-  apply Forall_app. split; [|exact Hcpw].
+  cbn [app]. apply Forall_app. split; [|exact Hcpw].
   apply Forall_forall. intros i Hi. apply in_map_iff in Hi. destruct Hi as [e [He _]].
   subst i. reflexivity.
 Qed.
